@@ -1,6 +1,7 @@
 import SqfModel
 import SqfModel.Generated.Registry
 import SqfModel.VM.Sched
+import SqfModel.Config
 import Driver.Proto
 import Std.Data.HashMap
 /-!
@@ -109,6 +110,119 @@ def verbEq (e : Env) (f : List (List Nat)) : List Nat :=
   | none => str "parse-error"
   | some prog => VM.observeEq prog (assemble e.real)
 
+/-! ### cfg: the config tree. Field 1 carries the AST of every load (the model does not parse config
+text; the implementation's parser is tied to it through the results), field 2 the queries. -/
+open Sqf.Cfg in
+mutual
+partial def parseLit : List (List Nat) → Option (Lit × List (List Nat))
+  | [] => none
+  | t :: rest =>
+    if t == str "[" then
+      match parseLits rest [] with
+      | some (xs, r) => some (.arr xs, r)
+      | none => none
+    else match t with
+      | 110 :: 58 :: hx => some (.dec (unhexChars (hx.map Char.ofNat)), rest)
+      | 104 :: 58 :: hx => some (.hex (unhexChars (hx.map Char.ofNat)), rest)
+      | 115 :: 58 :: hx => some (.str (unhexChars (hx.map Char.ofNat)), rest)
+      | 116 :: 58 :: hx => some (.text (unhexChars (hx.map Char.ofNat)), rest)
+      | _ => none
+partial def parseLits : List (List Nat) → List Lit → Option (List Lit × List (List Nat))
+  | [], _ => none
+  | t :: rest, acc =>
+    if t == str "]" then some (acc.reverse, rest)
+    else match parseLit (t :: rest) with
+      | some (l, r) => parseLits r (l :: acc)
+      | none => none
+end
+
+def unhexBytes (hx : List Nat) : List Nat := unhexChars (hx.map Char.ofNat)
+
+open Sqf.Cfg in
+mutual
+partial def parseNode : List (List Nat) → Option (Node × List (List Nat))
+  | t :: a :: rest =>
+    if t == str "c" then some (.classDef (unhexBytes a), rest)
+    else if t == str "D" then some (.del (unhexBytes a), rest)
+    else if t == str "x" then
+      match rest with
+      | b :: r => some (.classDefExt (unhexBytes a) (unhexBytes b), r)
+      | [] => none
+    else if t == str "k" then
+      match rest with
+      | _ :: r => (parseNodes r []).map (fun (ns, r') => (.cls (unhexBytes a) ns, r'))
+      | [] => none
+    else if t == str "e" then
+      match rest with
+      | b :: _ :: r => (parseNodes r []).map (fun (ns, r') => (.clsExt (unhexBytes a) (unhexBytes b) ns, r'))
+      | _ => none
+    else if t == str "f" then (parseLit rest).map (fun (l, r) => (.field (unhexBytes a) l, r))
+    else if t == str "a" then (parseLit rest).map (fun (l, r) => (.fieldArr (unhexBytes a) l, r))
+    else if t == str "p" then (parseLit rest).map (fun (l, r) => (.fieldArrAppend (unhexBytes a) l, r))
+    else none
+  | _ => none
+/-- nodes up to the closing `}` (or the end of the tokens at top level) -/
+partial def parseNodes : List (List Nat) → List Sqf.Cfg.Node → Option (List Sqf.Cfg.Node × List (List Nat))
+  | [], acc => some (acc.reverse, [])
+  | t :: rest, acc =>
+    if t == str "}" then some (acc.reverse, rest)
+    else match parseNode (t :: rest) with
+      | some (n, r) => parseNodes r (n :: acc)
+      | none => none
+end
+
+def intOfBytes (bs : List Nat) : Int :=
+  match bs with
+  | 45 :: r => - (natOfDigits r : Int)
+  | r => (natOfDigits r : Int)
+
+open Sqf.Cfg in
+def parseQuery (q : List Nat) : Option (List Step × Obs) :=
+  let parts := splitOn 44 q
+  let rec go : List (List Nat) → List Step → Option (List Step × Obs)
+    | [], _ => none
+    | p :: rest, acc =>
+      match p with
+      | 100 :: 58 :: hx => go rest (.down (unhexBytes hx) :: acc)
+      | 115 :: 58 :: n => go rest (.select (intOfBytes n) :: acc)
+      | [105] => go rest (.inherits :: acc)
+      | 111 :: 58 :: o =>
+        let obs : Option Obs :=
+          if o == str "num" then some .num else if o == str "text" then some .text else if o == str "arr" then some .arr
+          else if o == str "isNum" then some .isNum else if o == str "isText" then some .isText else if o == str "isArr" then some .isArr
+          else if o == str "isClass" then some .isClass else if o == str "isNull" then some .isNull else if o == str "name" then some .name
+          else if o == str "count" then some .count else if o == str "hier" then some .hier else if o == str "classes" then some .classes
+          else if o == str "self" then some .self else none
+        obs.map (fun ob => (acc.reverse, ob))
+      | _ => none
+  go parts []
+
+def renderCodes (cs : List Nat) : List Nat := joinWith [44] (cs.map natStr)
+
+open Sqf.Cfg in
+def verbCfg (f : List (List Nat)) : List Nat :=
+  let astField := (f[1]?).getD []
+  let loads := splitOn 124 astField          -- '|'
+  let loads := if astField.isEmpty then [] else loads
+  let (host, flags, diags) := loads.foldl (fun (acc : Host × List Nat × List Nat) l =>
+    let toks := (splitOn 32 l).filter (fun t => !t.isEmpty)
+    if toks == [str "!"] then (acc.1, acc.2.1 ++ [48], acc.2.2)      -- a text the parser rejects
+    else match parseNodes toks [] with
+    | some (ns, _) =>
+      let (h1, d1) := load acc.1 ns
+      (h1, acc.2.1 ++ [49], acc.2.2 ++ d1)
+    | none => (acc.1, acc.2.1 ++ [63], acc.2.2)) (({} : Host), [], [])
+  let queries := match f[2]? with
+    | some q => if q.isEmpty then [] else splitOn 59 q
+    | none => []
+  let outs := queries.map (fun q =>
+    match parseQuery q with
+    | some (steps, obs) =>
+      let (v, cs) := observeQ host steps obs
+      v ++ str "|" ++ renderCodes (visible cs)
+    | none => str "bad-query")
+  str "load=" ++ flags ++ str "/" ++ renderCodes (visible diags) ++ (outs.foldl (fun acc o => acc ++ str " ; " ++ o) [])
+
 def handle (e : Env) (verb : String) (f : List (List Nat)) : List Nat :=
   if verb == "asm" then verbAsm e f
   else if verb == "lex" then verbLex f
@@ -116,6 +230,7 @@ def handle (e : Env) (verb : String) (f : List (List Nat)) : List Nat :=
   else if verb == "trace" then verbRun e f true
   else if verb == "start" then verbStart e f
   else if verb == "eq" then verbEq e f
+  else if verb == "cfg" then verbCfg f
   else str "bad-verb"
 
 partial def loop (e : Env) (h : IO.FS.Stream) (out : IO.FS.Stream) : IO Unit := do
